@@ -296,6 +296,7 @@ func init() {
 			c01ShiftHistory(c)
 			c01NeighbourHistory(c)
 			c01CounterWalk(c)
+			c01WasmTwin(c)
 			// hooked: key and message actually fed to the HMAC
 			if hooks.Available() {
 				checkHMACInputsHOTP(c)
@@ -397,6 +398,55 @@ func c01CounterWalk(c *Ctx) {
 			c.R.Count("adjacent_counter_walk_calls", 1)
 		}
 	}
+}
+
+// c01WasmTwin: the js/wasm build derives HOTP codes with its own copy of the derivation (DeriveRFC4226Wasm); it is
+// reachable natively when the harness was built with the overlay that compiles those sources. Same oracle as GenerateHOTP.
+func c01WasmTwin(c *Ctx) {
+	r := c.R
+	if wasmDerive == nil {
+		r.Inconclusive("js/wasm twin of the derivation (DeriveRFC4226Wasm): sources not compiled natively in this run (C20 still checks the binding under Node)")
+		return
+	}
+	rng := c.RNG.Fork(120)
+	type twinCase struct {
+		KeyHex  string `json:"key_hex"`
+		Counter uint64 `json:"counter"`
+		Digits  int    `json:"digits"`
+		Algo    uint8  `json:"algo"`
+	}
+	judge := func(k twinCase) {
+		key := unhex(k.KeyHex)
+		var code string
+		var err error
+		pan := monCatch(func() { code, err = wasmDerive(key, k.Counter, k.Digits, k.Algo) })
+		r.Eval(1)
+		supported := k.Digits >= 1 && k.Digits <= 10 && ref.HashSupported(int(k.Algo))
+		cls := "digits=1..10"
+		if k.Digits < 1 {
+			cls = "digits<1"
+		} else if k.Digits > 10 {
+			cls = "digits>10"
+		}
+		r.Nontrivial(fmt.Sprintf("twin|%s|%d|%d|%d", k.KeyHex, k.Counter, k.Digits, k.Algo))
+		switch {
+		case pan != nil:
+			r.Violate("C01|DeriveRFC4226Wasm(js/wasm build)|panic|"+cls, "the js/wasm build's derivation panics ("+cls+")", "none", k, "a code or an error", panicStr(pan))
+		case supported && (err != nil || code != ref.HOTP(key, k.Counter, k.Digits, int(k.Algo))):
+			r.Violate("C01|DeriveRFC4226Wasm(js/wasm build)|wrong-code|"+cls, "the js/wasm build's derivation differs from RFC 4226", "none", k, ref.HOTP(key, k.Counter, k.Digits, int(k.Algo)), fmt.Sprintf("%q err=%v", code, err))
+		case !supported && err == nil:
+			r.Violate("C01|DeriveRFC4226Wasm(js/wasm build)|code-for-unsupported|"+cls, "the js/wasm build's derivation answers an unsupported code length or hash with a code", "none", k, "an error", fmt.Sprintf("code %q", code))
+		}
+	}
+	for d := -3; d <= 300; d++ {
+		for a := 0; a < 5; a++ {
+			judge(twinCase{KeyHex: hexs(rng.Bytes(gen.Pick(rng, []int{0, 1, 20, 64, 65, 200}))), Counter: gen.Counter(rng), Digits: d, Algo: uint8(a)})
+		}
+	}
+	for i := 0; i < c.N(20000, 400000); i++ {
+		judge(twinCase{KeyHex: hexs(rng.Bytes(rng.Intn(70))), Counter: gen.Counter(rng), Digits: 1 + rng.Intn(10), Algo: uint8(rng.Intn(3))})
+	}
+	r.Count("wasm_twin_derivations_judged", 1)
 }
 
 func parallelJudge[T any](c *Ctx, cases []T, judge func(*Ctx, T)) {
